@@ -84,7 +84,7 @@ def edge_cover(init, edges):
     return paths, len(set(edges))
 
 
-def run(tier, binary, d):
+def run(tier, binary, d, stress=0, seed=1):
     """returns (violations, coverage-dict)"""
     names = ["a", "c", "e"] if tier == "quick" else list(CONFIGS)
     viols = []
@@ -144,7 +144,31 @@ def run(tier, binary, d):
         for sidx, name, line, detail in json.load(open(outm))["violations"]:
             viols.append({"formula": name, "detail": "", "scenario": {"name": "FlowSender replay config %s schedule %d" % (c, sidx), "schedule": scheds[sidx] if 0 <= sidx < len(scheds) else None,
                           "consts": CONFIGS[c]}, "trace_file": None, "trace": None, "line": line, "k": None})
-    cov = {"flowsender_model_states": states, "flowsender_schedules_replayed": nsched, "flowsender_steps_validated": nsteps,
+    nstress = 0
+    if stress:
+        # free-running: the real sender against a credit-granting goroutine with real parallelism; every round's
+        # final observation is judged by the monitor (credit conserved, chunks add up)
+        trc = os.path.join(d, "fs_stress.ndjson")
+        p = subprocess.run([binary, "-test.run", "TestFlowSenderStress", "-test.timeout", "0"],
+                           env=dict(os.environ, VERIF_FS_STRESS=str(stress), VERIF_SEED=str(seed), VERIF_TRACES=trc, GOTRACEBACK="all"),
+                           stdout=subprocess.PIPE, stderr=subprocess.STDOUT, text=True, timeout=900)
+        if p.returncode != 0:
+            m = re.search(r"^(panic: .*|fatal error: .*)$", p.stdout, re.M)
+            viols.append({"formula": "HANG" if (m and "deadlock" in m.group(1)) or "STUCK" in p.stdout else "CRASH", "detail": (m.group(1) if m else "sender stress failed: " + p.stdout[-200:]),
+                          "scenario": {"name": "FlowSender stress"}, "crash": {"output": p.stdout[-3000:]}, "trace_file": None, "trace": None, "line": 0, "k": None})
+        elif os.path.exists(trc):
+            with open(trc, "a") as f:
+                f.write('{"ev":"end"}\n')
+            outm = trc + ".mon.json"
+            r = orch.tlc(os.path.join(orch.SPEC, "FlowSenderMonMC.tla"), os.path.join(orch.SPEC, "FlowSenderMon_stress.cfg"),
+                         env={"VERIF_TRACE": trc, "VERIF_OUT": outm})
+            if not os.path.exists(outm):
+                raise orch.Infra("TLC did not finish the FlowSender stress monitor:\n" + r.stdout[-1500:])
+            nstress = sum(1 for ln in open(trc) if '"reset"' in ln)
+            states += orch.tlc_stats(r.stdout)[0]
+            for sidx, name, line, detail in json.load(open(outm))["violations"]:
+                viols.append({"formula": name, "detail": "", "scenario": {"name": "FlowSender stress round %d" % sidx}, "trace_file": None, "trace": None, "line": line, "k": None})
+    cov = {"flowsender_stress_rounds": nstress, "flowsender_model_states": states, "flowsender_schedules_replayed": nsched, "flowsender_steps_validated": nsteps,
            "flowsender_transitions_covered": edges_total, "flowsender_samples": samples, "divergences": divergences}
     return viols, cov, states, trans
 
